@@ -1,6 +1,7 @@
 (* C13 — Query replies report the device's data verbatim.
    Only statements, `exact`, Print Assumptions and non-vacuity examples live here. *)
 From PowHsm Require Import Model.LedgerProtocol Proofs.C13.
+From PowHsm Require Import Gen.Src Proofs.SrcEquivLedger.
 Open Scope N_scope.
 
 (* getPubKey: whatever key bytes the device returns for the requested path are the reply's
@@ -80,3 +81,20 @@ Example C13_state_premises_hold :
   length hs = 7%nat /\ Forall (fun h => length h = 32%nat) hs /\
   state_reply hs [1; 0] 0 1 0 <> None.
 Proof. cbn. repeat split; try discriminate. repeat constructor. Qed.
+
+(* TIE BY TRANSLATION: HSM2DongleSignature.__init__ of ledger/signature.py, as regenerated from the Python source
+   text on this run (Gen/Src.v), reads r and s exactly as the model's der_parse for every byte string
+   (including the 0x31 quirk and trailing bytes) *)
+Theorem C13_source_der_reader_is_model :
+  forall b : bytes,
+  src_HSM2DongleSignature____init__ (VObj "HSM2DongleSignature" []) (VBytes b) =
+  match der_parse b with Some (r, s_) => POk (sig_obj r s_) | None => PRaise ValueError end.
+Proof. exact src_der_parse_ok. Qed.
+
+(* HSM2FirmwareParameters.from_dongle_format of ledger/parameters.py as translated: checkpoint, minimum
+   difficulty (unsigned big endian) and network of the 69 bytes, ValueError otherwise *)
+Theorem C13_source_parameters_is_model :
+  forall b : bytes,
+  src_HSM2FirmwareParameters__from_dongle_format (VBytes b) =
+  match params_from_dongle b with Some p => POk (params_obj p) | None => PRaise ValueError end.
+Proof. exact src_params_from_dongle_ok. Qed.
